@@ -85,6 +85,9 @@ func main() {
 			spec.Run(p, r, *tier)
 		}()
 		fo := finishOpts(id, *tier, seed, *evDir, *repDir, *known, start, &spec)
+		if *tier == "thorough" {
+			fo.Extra = map[string]interface{}{"cha_cross_check_extra_callees": p.CHAExtra}
+		}
 		if len(props) > 1 {
 			fo.WallS = time.Since(t0).Seconds()
 		}
